@@ -20,7 +20,8 @@ from .common import VERIF, REPO, LEAN, sh
 LEVEL = "proof"
 POLICIES = ["CO", "EN", "WRD", "BIC", "DBG", "CHK", "NAN", "INF"]
 SITE = {"div": "div_signed_int", "subMul": "sub_mul_int", "umod2exp": "umod_2exp_signed_int",
-        "sqrt": "sqrt_signed_int", "lcm": "lcm_gcd_exact"}
+        "sqrt": "sqrt_signed_int", "lcm": "lcm_gcd_exact", "assignD": "assign_int_float", "assignF": "assign_int_float",
+        "assignZ": "assign_int_mpz", "assignQ": "assign_int_mpq"}
 PROPERTY_OBLIGATIONS = {"holds", "directed", "overflow", "stored", "bounded"}
 DIRNAME = {0: "ROUND_DOWN", 1: "ROUND_UP", 6: "ROUND_IGNORE", 7: "ROUND_NOT_NEEDED"}
 MIS_RE = re.compile(r"^MISMATCH (\S+) (\S+) (.*)$")
@@ -61,7 +62,8 @@ def run(ctx):
     if ctx.tier == "thorough":
         broken += ctx.leanchecker(["PPLV.Props.C11"])
     drv = ctx.ensure_pplv("pplv_c11")
-    h = ctx.compile_harness("c11_checked.cc")
+    # -frounding-math as in PPL's own build: the inline float kernel relies on the run-time rounding mode
+    h = ctx.compile_harness("c11_checked.cc", flags=("-frounding-math",))
     wd = ctx.workdir()
 
     # ---- the harness's copy of Bounded_Integer_Coefficient_Policy vs the source -------------------
@@ -221,7 +223,11 @@ def run(ctx):
         "are not executed (they trap) or are skipped by the driver (counted as out_of_contract)",
         "smod_2exp with exp = 0 evaluates Type(1) << (exp - 1) (undefined behaviour) and is not generated",
         "Bounded_Integer_Coefficient_Policy is instantiated through a flag-identical local copy (flags compared with the source text at every run)",
-        "theorems cover the native-integer kernel and the extended layer; mpz/mpq and floating-point kernels are not modelled (stage 2)",
+        "theorems cover the native-integer kernel and the extended layer; conversions from mpz/mpq are modelled by their effect and "
+        "checked by correspondence, conversions from double/float are judged on the real output only (K4 on the exact dyadic value); "
+        "the mpz/mpq/float arithmetic kernels are not modelled (stage 2)",
+        "the harness is compiled with -frounding-math like the library itself (without it GCC expands rint() inline assuming round-to-nearest "
+        "and assign_r(int, negative non-integer double, ROUND_UP) returns floor with V_LT)",
     ]
     ctx.cov.update(
         evaluations=total["n"],
